@@ -82,8 +82,22 @@ class LazyIgnoresRule(BaseLintRule):
         if not context.file_content:
             return []
 
+        if not self._is_enabled(context):
+            return []
+
         file_path = str(context.file_path) if context.file_path else "unknown"
         return self.check_content(context.file_content, file_path)
+
+    def _is_enabled(self, context: BaseLintContext) -> bool:
+        """Check the enabled flag of the lazy-ignores config section (default: enabled)."""
+        metadata = getattr(context, "metadata", None)
+        if not isinstance(metadata, dict):
+            return True
+        for key in ("lazy_ignores", "lazy-ignores"):
+            section = metadata.get(key)
+            if isinstance(section, dict):
+                return bool(section.get("enabled", True))
+        return True
 
     def check_content(self, code: str, file_path: str) -> list[Violation]:
         """Check code for unjustified ignores and orphaned suppressions.
